@@ -400,6 +400,7 @@ type GhostUpdate struct {
 	Assume bool   // call-site assumption about an external callee (trusted, listed)
 	Seq    int    // declaration order
 	Optional bool // "@?anchor": no error when the anchor matches no call
+	Define   bool // ghost define @anchor: X :: P
 }
 
 var anchorSeq int
@@ -626,6 +627,23 @@ func (db *ContractDB) ParseContracts(file string, lines []string, lineNos []int,
 				} else {
 					db.Ghosts[gv.Name] = gv
 				}
+			} else if len(f) >= 2 && f[0] == "define" {
+				if curF == nil {
+					return errf("ghost define outside func")
+				}
+				r := strings.TrimSpace(strings.TrimPrefix(rest, "define"))
+				// @anchor: X :: P   (rewritten to the update form "X = P")
+				i := strings.Index(r, "::")
+				if i < 0 {
+					return errf("ghost define needs X :: P")
+				}
+				r = r[:i] + "=" + r[i+2:]
+				gu, err := parseAnchored(r, true)
+				if err != nil {
+					return errf("%v", err)
+				}
+				gu.Define = true
+				curF.Updates = append(curF.Updates, gu)
 			} else if len(f) >= 2 && f[0] == "update" {
 				if curF == nil {
 					return errf("ghost update outside func")
